@@ -17,6 +17,10 @@ CHECKS = {
             "bounded-exhaustive enumeration of configurations and GOP shapes; independent OBU/header parser as oracle on every packet",
             "Every packet of every session in the configuration / GOP-shape cross products is parsed by an independent OBU parser and checked for TU structure, sequence-header identity and pic_type agreement.",
             "lib/obu.py transcribes the AV1 spec framing and header syntax; metadata OBUs unreachable through the API", "4/C02"),
+    "C23": ("sched (explicit-state) + srm_h", "model_checking",
+            "explicit-state exploration of all thread interleavings of the real SRM code under a controlled scheduler, visited-state cut on raw-memory state hash",
+            "All interleavings (no preemption bound) of producers/consumers/releasers/shutdown over the real EbSystemResourceManager.c for every harness size up to 3 objects x 2 producers x 2 consumers x 2 operations; monitors check single holder, conservation, posting order, no lost wake-up, live_count/release_enable semantics, shutdown wake-up, deadlock freedom on every step.",
+            "scheduling granularity = SVT mutex/semaphore operations; 64-bit state hash; small scopes", "4/C23"),
 }
 
 NOT_YET = {}
